@@ -172,6 +172,8 @@ class C19(Prop):
                             ("seq-worker", ["wnew 1 hold", "wjoin 1 20", "wstate 1", "wrelease 1", "wstate 1", "wstop 1",
                                             "wstep 1", "wjoin 1 20", "wstate 1", "wdestroy 1"])):
             mk("tsan-" + name, ["#tsan"] + lines)
+        # repaired: heart_beat_flag raced between the timer thread and the backend (real callback vs real call_heart_beat)
+        mk("tsan-heart-beat-flag", ["#tsan-hb", "hbrace 60"])
         return B
 
     def gen_rt(self, rng, n):
